@@ -541,6 +541,54 @@ def check_step_length(ctx, rule='R-STEPLEN'):
     ctx.floor('time-step lengths of the record readers', n, 3)
 
 
+def check_fresh_arrays(ctx, rule='R-FRESHARRAY'):
+    """record readers: getArray returns a new array on every call (variables created with values= are views of what they are given);
+    a work array kept on the reader and refilled makes two variables of one reader share their buffer"""
+    ctx.rule(rule, 'record readers: getArray allocates its result on every call (no work array kept on the reader)')
+    n = 0
+    for fmt in ('height_pressure', 'temperature', 'one3d', 'wind', 'uamiv'):
+        rp = CAMX + fmt + '/Read.py'
+        m = ctx.src.mod(rp)
+        for q, fn in sorted(m.functions.items()):
+            if not q.endswith('.getArray'):
+                continue
+            n += 1
+            where = 'src/PseudoNetCDF/%s %s' % (rp, q)
+            kept = [st for st in iter_stmts(fn.body) if isinstance(st, ast.Assign) and any(isinstance(t, ast.Attribute) and norm(t.value) == 'self' for t in st.targets)
+                    and any(isinstance(c, ast.Call) and (dotted(c.func) or '').split('.')[-1] in ('zeros', 'empty', 'ones', 'zeros_like', 'empty_like') for c in ast.walk(st.value))]
+            reuse = [st for st in iter_stmts(fn.body) if isinstance(st, ast.Assign) and isinstance(st.value, ast.Call) and dotted(st.value.func) == 'getattr' and st.value.args and norm(st.value.args[0]) == 'self'
+                     and len(st.value.args) == 3]
+            if kept:
+                ctx.violation(Finding(rule, rp, q, kept[0], 'the result array is kept on the reader (%s) and refilled by the next call: variables that are views of it (created with values=) then hold the data of '
+                                      'whichever variable was read last' % norm(kept[0])[:50]))
+            else:
+                ctx.ok(rule, q, where, 'result allocated per call')
+    ctx.floor('getArray methods of the record readers', n, 3)
+
+
+def check_species_bound(ctx, rule='R-SPCBOUND'):
+    """uamiv record reader: seek converts the species index to 1-based and then rejects indices above nspec; `>=` would reject the last"""
+    ctx.rule(rule, 'uamiv record reader: after the index is made 1-based the upper test is spc > nspec (the last species is nspec)')
+    rp = CAMX + 'uamiv/Read.py'
+    fn = ctx.src.mod(rp).functions.get('uamiv.seek')
+    where = 'src/PseudoNetCDF/%s uamiv.seek' % rp
+    if fn is None:
+        ctx.undec(rule, 'seek', where, 'function not found')
+        return
+    onebased = any(isinstance(st, ast.AugAssign) and norm(st.target) == 'spc' and isinstance(st.op, ast.Add) and norm(st.value) == '1' for st in iter_stmts(fn.body))
+    cmps = [c for c in walk_expr(fn) if isinstance(c, ast.Compare) and len(c.ops) == 1 and norm(c.left) == 'spc' and 'nspec' in norm(c.comparators[0])]
+    if not cmps:
+        ctx.undec(rule, 'seek', where, 'upper-bound test not found')
+    for c in cmps:
+        if isinstance(c.ops[0], ast.Gt) and onebased or (isinstance(c.ops[0], ast.GtE) and not onebased):
+            ctx.ok(rule, norm(c), where, '1-based index' if onebased else '0-based index')
+        elif isinstance(c.ops[0], ast.GtE) and onebased:
+            ctx.violation(Finding(rule, rp, 'uamiv.seek', api.stmt_of(c), '%s after the index was made 1-based: the last species of every file raises KeyError in the record reader while the memory-mapped reader '
+                                  'delivers it' % norm(c)))
+        else:
+            ctx.undec(rule, norm(c), where, 'comparison form not recognised')
+
+
 def check_default_shape(ctx, rule='R-DEFSHAPE'):
     """both readers of a format give a file opened without a grid shape the same default orientation (all cells in one column of rows)"""
     ctx.rule(rule, 'record and memory-mapped reader of a format use the same default (rows, cols) when no grid shape is given')
@@ -576,6 +624,8 @@ def run(ctx):
     check_scan_siblings(ctx)
     check_default_shape(ctx)
     check_step_length(ctx)
+    check_fresh_arrays(ctx)
+    check_species_bound(ctx)
     for r, d in (('R-FMTTABLE', 'uamiv: struct strings of Read.py == word sequence of the Memmap.py layouts'),
                  ('R-IDWORDS', "met formats: id_fmt 'fi' == memmap usage of words 1:3 (float time, integer date), data 3:-1"),
                  ('R-STEPID', 'time-step detection compares both identifier words'),
